@@ -773,6 +773,21 @@ class ModuleCanon(object):
                 r = inl.definition(n, t)
                 if r is None or r[1] is not dn:
                     return False
+            from . import nf
+            if nf.reads_heap(val):
+                # a value read from the heap is the same value later only if nothing in between can change the heap
+                for n, _ in use_nodes:
+                    between = [m for m in cfg.reach([dn]) if m is not n and m is not dn and n in cfg.reach([m])]
+                    for m in between:
+                        a_ = m.ast
+                        if a_ is None or isinstance(a_, (ast.FunctionDef, ast.ClassDef)):
+                            continue
+                        if m.kind in ("with_enter", "with_exit") or (m.kind == "for" and nf.has_impure(a_.iter)):
+                            return False
+                        probe = a_.iter if m.kind == "for" else a_
+                        if isinstance(probe, ast.AST) and (nf.has_impure(probe) or any(
+                                isinstance(y, (ast.Attribute, ast.Subscript)) and isinstance(y.ctx, (ast.Store, ast.Del)) for y in ast.walk(probe))):
+                            return False
         else:
             # an expression with calls: only a single use, evaluated first in the directly following statement
             if len(uses) != 1 or len(use_nodes) != 1:
